@@ -46,6 +46,12 @@ def _where(s):
 
 def _reads(s, rng, frac=0.7):
     """Call a random subset of the queries that a class could be tempted to memoise."""
+    with contracts.quiet(), warnings.catch_warnings(), np.errstate(all="ignore"):
+        warnings.simplefilter("ignore")
+        _reads_body(s, rng, frac)
+
+
+def _reads_body(s, rng, frac):
     names = _READS_3D if fingerprint.is3d(s) else _READS_2D
     size = _size(s)
     c = _where(s)
@@ -167,8 +173,23 @@ def age_or_sibling(s, rng, frac=0.3, **kw):
     itself is left alone.  Whatever two objects of a class share behind the scenes (a module-level memo keyed by the
     vertices, a buffer handed from one instance to the next) shows up as ``s`` no longer describing its own geometry.
     Returns (log, sibling-or-None); keep the sibling referenced while ``s`` is being judged."""
-    if rng.random() >= frac:
+    u = rng.random()
+    if u >= frac:
         return age(s, rng, **kw), None
+    if u < frac / 3:
+        # a *different* object of the same class, built after ``s`` and read before ``s`` is: a table kept at class level and
+        # keyed by something both objects have (face indices, a name) would carry the companion's values over to ``s``
+        try:
+            import coxeter.shapes as cs
+            from . import bases
+
+            with contracts.quiet():
+                lst = bases.base_shapes(cs)[type(s).__name__]
+                comp = lst[int(rng.integers(len(lst)))][1]()
+            _reads(comp, rng, frac=1.0)
+            return ["a different object of the same class was built and read first"], comp
+        except Exception:
+            return age(s, rng, **kw), None
     try:
         with contracts.quiet():
             sib = fingerprint.fresh(s)
